@@ -2,6 +2,7 @@ package checks
 
 import (
 	"context"
+	"crypto/sha256"
 	"encoding/json"
 	"fmt"
 	"os"
@@ -90,13 +91,58 @@ func c05Scenarios(u *uni.U, gen *wh.CPGen, la, lb wh.LogCfg) []c05Scenario {
 type c05Instance struct {
 	env  *wh.Env
 	exec *sched.Exec
+	// For visited-state keys: a mirror of the store (identity of the bytes
+	// stored per log), the identity of every byte string seen, and a hash
+	// chain of what each thread has observed from the store.
+	mirror  map[string]string
+	ident   map[string]string
+	obs     map[int]string
+	nextIdt int
+}
+
+// identity names a stored byte string independently of signature timestamps:
+// its note text plus who produced it.
+func (i *c05Instance) identity(b []byte, producer string) string {
+	if b == nil {
+		return "-"
+	}
+	if id, ok := i.ident[string(b)]; ok {
+		return id
+	}
+	text, _, _ := uni.SplitNote(b)
+	id := fmt.Sprintf("%x#%s", sha256.Sum256([]byte(text)), producer)
+	i.ident[string(b)] = id
+	return id
 }
 
 func c05Build(u *uni.U, store string, la, lb wh.LogCfg, sc c05Scenario) *c05Instance {
-	inst := &c05Instance{}
+	inst := &c05Instance{mirror: map[string]string{}, ident: map[string]string{}, obs: map[int]string{}}
 	cfg := wh.Config{Store: store, Logs: []wh.LogCfg{la, lb}}
 	cfg.Wrap = func(p persistence.LogStatePersistence) persistence.LogStatePersistence {
-		return lspwrap.New(p, lspwrap.Hooks{Point: func(op, id string) {
+		return lspwrap.New(p, lspwrap.Hooks{Observe: func(op, id string, data []byte, err error) {
+			e := inst.exec
+			who := "init"
+			if e != nil {
+				who = fmt.Sprintf("T%d", e.Cur())
+			}
+			var seen string
+			switch {
+			case op == "w.Set" && err == nil:
+				inst.mirror[id] = inst.identity(data, who)
+				seen = "set"
+			case op == "WriteOps" || op == "ReadOps":
+				// the in-memory store takes its snapshot here
+				seen = "snap:" + inst.mirror[id]
+			case data != nil:
+				seen = inst.identity(data, "?")
+			case err != nil:
+				seen = "err"
+			}
+			if e != nil {
+				h := sha256.Sum256([]byte(inst.obs[e.Cur()] + "|" + op + "=" + seen))
+				inst.obs[e.Cur()] = fmt.Sprintf("%x", h[:8])
+			}
+		}, Point: func(op, id string) {
 			e := inst.exec
 			if e == nil {
 				return
@@ -164,7 +210,28 @@ func c05RunOne(u *uni.U, store string, la, lb wh.LogCfg, sc c05Scenario, prefix 
 			}
 		})
 	}
-	x := sched.Run(prefix, bodies, func(e *sched.Exec) { inst.exec = e })
+	x := sched.Run(prefix, bodies, func(e *sched.Exec) {
+		inst.exec = e
+		e.KeyFn = func() string {
+			var sb strings.Builder
+			fmt.Fprint(&sb, e.PCs(), "|")
+			var ids []string
+			for id, v := range inst.mirror {
+				ids = append(ids, id[:6]+"="+v)
+			}
+			sort.Strings(ids)
+			sb.WriteString(strings.Join(ids, ","))
+			for ti := range sc.Threads {
+				sb.WriteString("|" + inst.obs[ti])
+			}
+			// Completed and pending operations with their outputs, in call /
+			// return order (the linearizability verdict depends on it).
+			for _, ev := range events {
+				fmt.Fprintf(&sb, "|%d:%d:%d:%d:%s:%s:%v", ev.Thread, ev.Call, ev.Return, len(ev.Logs), ev.Class, inst.identity(bytesOrNil(ev.Bytes), "?"), ev.NotFound)
+			}
+			return sb.String()
+		}
+	})
 	inst.exec = nil
 	out := make([]c05Event, 0, len(events)+2)
 	for _, e := range events {
@@ -190,6 +257,13 @@ func c05RunOne(u *uni.U, store string, la, lb wh.LogCfg, sc c05Scenario, prefix 
 		}
 	}
 	return x, out, inst.env, initial
+}
+
+func bytesOrNil(s string) []byte {
+	if s == "" {
+		return nil
+	}
+	return []byte(s)
 }
 
 // ---------------------------------------------------------------- oracle
@@ -406,6 +480,8 @@ type c05Result struct {
 	MaxPoints  int              `json:"max_points"`
 	MaxSteps   int              `json:"max_steps"`
 	Capped     bool             `json:"capped"`
+	Pruned     int64            `json:"pruned"`
+	States     int              `json:"states"`
 	Outcomes   map[string]int64 `json:"outcomes"`
 	Violations []c05Violation   `json:"violations"`
 	Sample     string           `json:"sample"`
@@ -427,6 +503,7 @@ func c05Worker(args []string) int {
 	fmt.Sscanf(args[3], "%d", &shard)
 	fmt.Sscanf(args[4], "%d", &nshards)
 	fmt.Sscanf(args[5], "%d", &maxExec)
+	prune := len(args) > 6 && args[6] == "prune"
 	wh.InstallLogicalClock()
 	u, gen, la, lb := c05Universe()
 	var sc c05Scenario
@@ -441,7 +518,7 @@ func c05Worker(args []string) int {
 	var envs []*wh.Env
 	var lastH []c05Event
 	var lastInit map[string]string
-	st, err := sched.Explore(bound, shard, nshards, maxExec,
+	st, err := sched.ExplorePruned(bound, shard, nshards, maxExec, prune,
 		func(prefix []int) *sched.Exec {
 			x, h, env, ini := c05RunOne(u, store, la, lb, sc, prefix)
 			lastH, lastInit = h, ini
@@ -488,6 +565,7 @@ func c05Worker(args []string) int {
 		res.Err = err.Error()
 	}
 	res.Executions, res.MaxPoints, res.MaxSteps, res.Capped = st.Executions, st.MaxPoints, st.MaxSteps, st.Capped
+	res.Pruned, res.States = st.Pruned, st.States
 	b, _ := json.Marshal(res)
 	fmt.Println(string(b))
 	return 0
